@@ -39,6 +39,7 @@ ERRS = {'visited': '.visited', 'crate_': '.crate_', 'none': '.none', 'empty': '.
 PATH_THEOREMS = ['traitPath_eq', 'supportsUnion_eq']
 WORD_THEOREMS = ['srcWords_closed', 'srcTemps_prefixed', 'pathFromStrs_rooted']
 UNSAFE_THEOREMS = ['unsafeTemplates_guarded']
+PANIC_THEOREMS = ['panicSites_known']
 
 THEOREMS = ['groupTraits_eq', 'groups_complete', 'traits_complete', 'ints_complete', 'traitSupported_eq', 'traitOfName_eq',
             'traitOfName_complete', 'traitOfName_asStr', 'groupOfName_eq', 'groupOfName_complete', 'reprOfName_eq',
@@ -163,6 +164,10 @@ def extract(repo):
         out['words'] = None
         out['words_reason'] = repr(e)
     try:
+        out['panic_sites'] = extract_panic_sites(repo)
+    except (Missing, OSError, ValueError, IndexError) as e:
+        out['panic_sites'] = None
+    try:
         out['unsafe_sites'] = extract_unsafe_sites(repo)
     except (Missing, OSError, ValueError, IndexError, StopIteration) as e:
         out['unsafe_sites'] = None
@@ -220,6 +225,32 @@ def extract_words(repo):
     return sorted(words), sorted(temps), rooted
 
 
+def extract_panic_sites(repo):
+    """Every `unreachable!` / `panic!` / `assert!` / `debug_assert!` / `.expect(..)` / `.unwrap()` of the source (not inside a
+    token template: those are `::core::..!` of the *generated* code), as (file, kind, message or condition)."""
+    import glob
+    sites = []
+    for f in sorted(glob.glob(os.path.join(repo, 'src/**/*.rs'), recursive=True)):
+        if '/src/test/' in f or f.endswith('verif_hook.rs'):
+            continue
+        src = re.sub(r'//[^\n]*', '', open(f).read())
+        for m in re.finditer(r'(?<![:\w])(unreachable|panic|assert|debug_assert|assert_eq|assert_ne|debug_assert_eq|todo|unimplemented)!\s*\(|\.(expect)\s*\(|\.(unwrap)\s*\(\s*\)', src):
+            kind = m.group(1) or m.group(2) or m.group(3)
+            rest = src[m.end():m.end() + 300]
+            lit = re.match(r'\s*"((?:\\.|[^"\\])*)"', rest)
+            if lit:
+                arg = lit.group(1)
+            else:
+                depth, i = 1, 0
+                while i < len(rest) and depth:
+                    depth += rest[i] == '('
+                    depth -= rest[i] == ')'
+                    i += 1
+                arg = re.sub(r'\s+', ' ', rest[:i - 1]).strip()
+            sites.append((os.path.relpath(f, repo), kind, arg))
+    return sorted(sites)
+
+
 def extract_unsafe_sites(repo):
     """Every token template of the source that contains the word `unsafe`, with whether the statement or match arm it
     belongs to carries `#[cfg(not(feature = "safe"))]` (the nearest `#[cfg(..)]` within the three lines above)."""
@@ -247,7 +278,7 @@ def extract_unsafe_sites(repo):
 
 
 def lean_file(t):
-    L = ['import DW.Validate', 'import DW.Message', 'import DW.Render', 'import DW.Spec', 'import DW.Lemmas.Vocab', '',
+    L = ['import DW.Validate', 'import DW.Message', 'import DW.Render', 'import DW.Spec', 'import DW.Lemmas.Vocab', 'import DW.PanicSites', '',
          '/-! Tables extracted from the Rust source on this run, and their equality with the model (kernel-checked). -/',
          'namespace DW.Extracted', 'open DW', '']
     L.append('def zcfg : Cfg := { safe := false, nightly := false, zeroize := true, zod := true }')
@@ -311,6 +342,11 @@ def lean_file(t):
               '/-- `util::path_from_strs` sets the leading `::`. -/',
               'theorem pathFromStrs_rooted : pathFromStrsLeading = true := by decide']
         names += WORD_THEOREMS
+    if t.get('panic_sites') is not None:
+        L.append('def srcPanicSites : List (String × String × String) := [%s]' % ', '.join('(%s, %s, %s)' % tuple(lean_str(x) for x in st) for st in t['panic_sites']))
+        L += ['/-- The panic sites of the current source are exactly the ones `DW/PanicSites.lean` accounts for. -/',
+              'theorem panicSites_known : srcPanicSites = knownPanicSites := by decide +kernel']
+        names += PANIC_THEOREMS
     if t.get('unsafe_sites') is not None:
         L.append('def unsafeSites : List (String × Nat × Bool) := [%s]' % ', '.join('(%s, %d, %s)' % (lean_str(f), n, 'true' if g else 'false') for f, n, g in t['unsafe_sites']))
         L += ['/-- Every token template of the source that says `unsafe` is compiled only without the `safe` feature (the source-side',
@@ -333,6 +369,8 @@ def check(prop):
         t['words'] = None          # the vocabulary of the templates is C14's obligation only
     if prop != 'C12':
         t['unsafe_sites'] = None   # the cfg guards of the `unsafe` templates are C12's
+    if prop != 'C16':
+        t['panic_sites'] = None    # the inventory of panic sites is C16's
     os.makedirs(runner.WORK, exist_ok=True)
     f = os.path.join(runner.WORK, 'Tables_%s.lean' % prop)
     open(f, 'w').write(lean_file(t))
@@ -343,7 +381,7 @@ def check(prop):
         return ['the tables extracted from the source differ from the model\'s (%s): %s' % (os.path.relpath(f, runner.VERIF), ' | '.join(errs)[:600])], 0
     bad = []
     global LAST_NAMES
-    LAST_NAMES = list(THEOREMS) + (PATH_THEOREMS if t.get('paths') else []) + (WORD_THEOREMS if t.get('words') is not None else []) + (UNSAFE_THEOREMS if t.get('unsafe_sites') is not None else [])
+    LAST_NAMES = list(THEOREMS) + (PATH_THEOREMS if t.get('paths') else []) + (WORD_THEOREMS if t.get('words') is not None else []) + (PANIC_THEOREMS if t.get('panic_sites') is not None else []) + (UNSAFE_THEOREMS if t.get('unsafe_sites') is not None else [])
     for n in LAST_NAMES:
         m = re.search(r"'DW\.Extracted\.%s' (does not depend on any axioms|depends on axioms: \[([^\]]*)\])" % n, p.stdout)
         if not m:
